@@ -89,6 +89,47 @@ def reference_lint(chk, rule="references-resolve"):
     chk.decide(not dup, rule, "core/tests/currency.snapshot.json", "unique", "", "snapshot names are unique", "duplicate snapshot names %s" % dup)
 
 
+def declared_base_units(chk, rule="declared-base-units"):
+    """A quoted name in an expression (`'hash'`) makes an ad-hoc base unit at evaluation time.  In the data that is loaded as
+    definitions (the live-currency entries go through the query grammar, which allows quotes) every such name must be a base
+    unit the files declare; otherwise a stored value has a dimension that is not a declared base unit and cannot be named in
+    a query."""
+    d = defs()
+    cur = defs("currency.units")
+    base = {x["name"] for x in d + cur if x["kind"] == "base"} | {x["long"] for x in d + cur if x["kind"] == "base" and x.get("long")}
+    bad = []
+    n = 0
+    for e in snapshot():
+        exprs = [e["expr"]] if e.get("type") == "unit" else [p[k] for p in e.get("properties", []) for k in ("input", "output")]
+        for x in exprs:
+            try:
+                tree = reader.p_expr(reader.Toks(x))
+            except Exception:  # noqa
+                continue
+            o = []
+            ulint.names_in(tree, o)
+            for nm in o:
+                if nm.startswith(("'", '"')):
+                    n += 1
+                    if nm.strip("'\"") not in base:
+                        bad.append("%s: %s" % (e["name"], nm))
+    for x in d + cur:
+        exprs = [x["expr"]] if "expr" in x else []
+        for pr in x.get("props", []):
+            exprs += [pr["input"], pr["output"]]
+        for ex in exprs:
+            o = []
+            ulint.names_in(ex, o)
+            for nm in o:
+                if nm.startswith(("'", '"')):
+                    n += 1
+                    if nm.strip("'\"") not in base:
+                        bad.append("%s: %s" % (x["name"], nm))
+    chk.decide(not bad, rule, "core data files", "quoted-names-are-declared-base-units", "core/tests/currency.snapshot.json",
+               "%d quoted (ad-hoc) unit names in the data, each a declared base unit" % n,
+               "quoted names that create undeclared base units: %s" % bad[:6])
+
+
 def overlay_rebinding(chk, rule="overlay-does-not-rebind"):
     """The currency overlay is loaded after (and separately from) definitions.units, so the values of the base entries
     are already fixed; the recorded definition text of a base entry keeps meaning what it meant only if every identifier
